@@ -1,7 +1,7 @@
 (* Property C20 — provider discovery failures fail closed and heal without a
    restart.  Only the property theorems, each closed by `exact`, with Print
    Assumptions beneath.  Model: Model/Discovery.v; monitor: Spec/DiscoverySpec.v;
-   proofs: Proofs/DiscoveryProofs.v, Proofs/DiscoveryStay.v; measured constants: gen/params/ParamsDiscovery.v.
+   proofs: Proofs/DiscoveryProofs.v, Proofs/DiscoveryStay.v, Proofs/DiscoveryEp.v; measured constants: gen/params/ParamsDiscovery.v.
 
    Two initialisations are modelled: `initialize_pinned` (one GetMetadata, give
    up on error — the code as pinned) and `initialize_retrying` (GetMetadata in a
@@ -10,7 +10,7 @@
    (ParamsDiscovery.init_retries_forever).  The healing theorem is about the
    retrying one; C20_heals_current transfers it to the measured tree. *)
 From VF Require Import Base.Prelude Model.Discovery Spec.DiscoverySpec Corr.DiscoveryCorr Proofs.DiscoveryProofs
-  Proofs.DiscoveryStay.
+  Proofs.DiscoveryStay Proofs.DiscoveryEp.
 From VFP Require Import ParamsDiscovery.
 Open Scope Z_scope.
 
@@ -206,4 +206,44 @@ Example C20_stays_nonvacuous :
   /\ stays_ok (mkDc 0 false (dc_timeout c) (dc_script c) (dc_healthy c) [] (dc_ready_ms c) (dc_ready_loc c) 0
                     (dc_init_hits c)
                     [(OServe (mkReq PGated sec), Some bad, mkOs 8 true d1 true 60)] (dc_served c)) = false.
+Proof. vm_compute. repeat split. Qed.
+
+(* The endpoints in use are those of ONE document the provider handed out: in
+   the observations the retrying model produces, after every operation --
+   requests, passages of time, refresh ticks (successful or failed, served from
+   the cache or not), cache clean-up ticks, changes of the provider's script --
+   a ready instance reports six endpoint fields that are, all six together,
+   the fields of some document in `dc_served`; never a mixture with an answer
+   that was not a successful discovery.  (By the invariant of C20_endpoints a
+   ready middleware holds the latest successfully fetched document, and the
+   provider's log only grows, so that document is among those handed out by
+   the end of the case.  Neither premise of C20_monitor_model is needed.) *)
+Theorem C20_endpoints_of_one_document : forall (fs : list fault) (h : doc) (T : Z) (pre : list request) (ops : list op),
+  ep_ok (model_case (faults fs) h T pre ops) = true.
+Proof. exact ep_model. Qed.
+Print Assumptions C20_endpoints_of_one_document.
+
+(* Non-vacuity of the clause: on a run of the model with a change of document
+   the clause judges ready steps (all five here) and holds; and it can fail: a
+   hand-made case whose only step is ready with revocation / end-session
+   endpoints 75 / 76 that the one document handed out (41 42 43 44 0 0) did not
+   carry is rejected, the same case reporting exactly that document is
+   accepted, and a step that is not ready is not judged. *)
+Example C20_endpoints_nonvacuous :
+  let fs := [FRefused; F500] in
+  let d1 := mkDoc 11 12 13 14 15 16 in
+  let d2 := mkDoc 21 22 23 24 25 26 in
+  let c := model_case (faults fs) d1 (1 * sec) []
+             [OServe (mkReq PGated sec); OScript [] d2; OShift (61 * 60 * sec); ORefresh;
+              OServe (mkReq PGated sec)] in
+  let served := [mkDoc 41 42 43 44 0 0] in
+  let hand ready ep := mkDc 0 false (1 * sec) [] (mkDoc 41 42 43 44 0 0) [] (Some 0) 42 0 1
+                            [(ORefresh, None, mkOs 1 ready ep true 60)] served in
+  map (fun s : obs_step => os_ready (snd s)) (dc_steps c) = [true; true; true; true; true]
+  /\ dc_served c = [d1; d2]
+  /\ map (fun s : obs_step => os_ep (snd s)) (dc_steps c) = [d1; d1; d1; d2; d2]
+  /\ ep_ok c = true
+  /\ ep_ok (hand true (mkDoc 41 42 43 44 75 76)) = false
+  /\ ep_ok (hand true (mkDoc 41 42 43 44 0 0)) = true
+  /\ ep_ok (hand false (mkDoc 41 42 43 44 75 76)) = true.
 Proof. vm_compute. repeat split. Qed.
